@@ -12,6 +12,7 @@ inductive FClass where
   | none      -- nothing: `apprun`, `quitCb` are last
   | quit      -- `quitCb` (behind `catchExit`)
   | body      -- a body instruction, the `catchHandler` closing the body, or the pending `apprun`
+  | bodyM     -- like `body`, or `modalRet` (behind the `newLoop` of `push_screen_modal`)
   | mainK     -- the continuation of `execute_new_loop` / `run`: like `body`, or `catchExit`
   | main      -- `mainCheck` (behind `loopCheck`)
   | loop      -- `loopCheck` (behind `getDispatch`)
@@ -22,8 +23,20 @@ inductive FClass where
   | cps       -- `catchPS` (behind `identCheck`)
   deriving DecidableEq
 
+/-- `newLoop` (and `drawScreen`, `afterSetup2`, `processScreen`) is only ever the head of the code;
+`modalRet` stands only behind `newLoop`, the marker of the level that `newLoop` opened, or the
+`restoreRun` that marker leaves -/
+def Instr.isHeadOnly : Instr → Bool
+  | .newLoop _ | .drawScreen _ | .afterSetup2 _ | .processScreen => true
+  | _ => false
+
+def Instr.isModalRet : Instr → Bool
+  | .modalRet _ => true
+  | _ => false
+
 def Instr.fclass : Instr → FClass
   | .apprun | .quitCb => .none
+  | .newLoop _ => .bodyM
   | .catchExit => .quit
   | .mainCheck _ | .restoreRun => .mainK
   | .loopCheck => .main
@@ -38,11 +51,12 @@ def Instr.fclass : Instr → FClass
 def FClass.allows : FClass → Instr → Bool
   | .none, _ => false
   | .quit, i => match i with | .quitCb => true | _ => false
-  | .body, i => !i.isLC || (match i with | .catchHandler | .apprun => true | _ => false)
-  | .mainK, i => !i.isLC || (match i with | .catchHandler | .apprun | .catchExit => true | _ => false)
+  | .body, i => (!i.isLC && !i.isHeadOnly && !i.isModalRet) || (match i with | .catchHandler | .apprun => true | _ => false)
+  | .bodyM, i => (!i.isLC && !i.isHeadOnly) || (match i with | .catchHandler | .apprun => true | _ => false)
+  | .mainK, i => (!i.isLC && !i.isHeadOnly) || (match i with | .catchHandler | .apprun | .catchExit => true | _ => false)
   | .main, i => match i with | .mainCheck _ => true | _ => false
   | .loop, i => match i with | .loopCheck => true | _ => false
-  | .disp, i => !i.isLC || (match i with | .loopCheck => true | _ => false)
+  | .disp, i => (!i.isLC && !i.isHeadOnly && !i.isModalRet) || (match i with | .loopCheck => true | _ => false)
   | .handler, i => match i with | .dispatch .. => true | _ => false
   | .caa, i => match i with | .countAndAct _ => true | _ => false
   | .endpi, i => match i with | .endPI => true | _ => false
@@ -52,7 +66,8 @@ def FClass.allows : FClass → Instr → Bool
 def FClass.le : FClass → FClass → Bool
   | .none, _ => true
   | .quit, .quit => true
-  | .body, .body | .body, .mainK => true
+  | .body, .body | .body, .mainK | .body, .bodyM => true
+  | .bodyM, .bodyM | .bodyM, .mainK => true
   | .mainK, .mainK => true
   | .main, .main => true
   | .loop, .loop | .loop, .disp => true
@@ -74,7 +89,7 @@ def Chained : List Instr → Prop
   | a :: l => followsC a.fclass l ∧ Chained l
 
 /-- a "generic" body instruction: may stand behind a body instruction and be followed by one -/
-def Instr.generic (i : Instr) : Bool := i.fclass == .body && !i.isLC
+def Instr.generic (i : Instr) : Bool := i.fclass == .body && !i.isLC && !i.isHeadOnly && !i.isModalRet
 
 namespace Shape
 
@@ -130,11 +145,11 @@ theorem chained_batch {h : Instr} {B rest : List Instr} (hB : Chained B)
 
 theorem generic_allows {i : Instr} (h : i.generic = true) : FClass.body.allows i = true := by
   simp only [Instr.generic, Bool.and_eq_true, Bool.not_eq_true'] at h
-  simp [FClass.allows, h.2]
+  simp [FClass.allows, h.1.1.2, h.1.2, h.2]
 
 theorem generic_fclass {i : Instr} (h : i.generic = true) : i.fclass = .body := by
   simp only [Instr.generic, Bool.and_eq_true, beq_iff_eq] at h
-  exact h.1
+  exact h.1.1.1
 
 theorem chained_generic {l : List Instr} (h : ∀ i ∈ l, i.generic = true) : Chained l := by
   induction l with
